@@ -38,6 +38,9 @@ type G struct {
 	C *core.Ctx
 	// Events collects what the generator chose (constructors, optional presence, ...) for the histogram.
 	Events []string
+	// Exotic, when a check sets it, widens the raw-cell part of the domain (see exotic.go). False by
+	// default: a generator without it makes exactly the draws it made before the field existed.
+	Exotic bool
 }
 
 func (g *G) ev(s string) {
@@ -60,6 +63,11 @@ func isTongo(t reflect.Type) bool {
 }
 
 func (g *G) smallCell(depth int) *boc.Cell {
+	if g.Exotic && depth > 0 {
+		if ec := g.exoticTree(); ec != nil {
+			return ec
+		}
+	}
 	c := boc.NewCell()
 	n := g.C.Range("cell.bits", 0, 40)
 	c.WriteBitString(gen.BitString(ref.Bits(g.C.Bits("cell.data", n))))
@@ -127,7 +135,11 @@ func (g *G) fill(v reflect.Value, tag string, depth int) error {
 	}
 	switch t {
 	case cellT:
-		if strings.Contains(tag, "^") && g.C.Intn("cell.library", 6) == 0 {
+		if g.Exotic && strings.Contains(tag, "^") {
+			if g.exoticBehindRef(v) {
+				return nil
+			}
+		} else if strings.Contains(tag, "^") && g.C.Intn("cell.library", 6) == 0 {
 			// a cell that stands behind a reference may be exotic: a library cell (type 2, hash of the real cell)
 			if lc := libraryCell(g.C.Content("cell.libhash", 32)); lc != nil {
 				g.ev("library cell behind a reference")
